@@ -329,7 +329,7 @@ WriteCell(w, s, cell) ==
 (* bundled math library (lib/math.facto): the DOCUMENTED mathematical definitions, for arguments for which the documented   *)
 (* formula does not overflow (otherwise VErr: the valuation is skipped).  Results are compiler-typed (free).                *)
 LibNames == {"abs", "sign", "min", "max", "clamp", "lerp", "between", "get_bit", "set_bit", "clear_bit", "toggle_bit", "div_floor", "mod_positive"}
-InR(x) == x >= -2147483647 /\ x <= 2147483647       \* strictly inside int32 (so that negation is exact)
+LibInR(x) == x >= -2147483647 /\ x <= 2147483647       \* strictly inside int32 (so that negation is exact)
 Small(x) == x > -30000 /\ x < 30000
 LibVal(f, a) ==
   LET x == a[1].v
@@ -338,7 +338,7 @@ LibVal(f, a) ==
       ok(c, v) == IF c THEN VSig("?", TRUE, v) ELSE VErr("lib-domain")
       absx(q) == IF q < 0 THEN -q ELSE q
       pos == y >= 0 /\ y <= 30
-  IN CASE f = "abs" -> ok(InR(x), absx(x))
+  IN CASE f = "abs" -> ok(LibInR(x), absx(x))
        [] f = "sign" -> ok(TRUE, IF x > 0 THEN 1 ELSE IF x < 0 THEN -1 ELSE 0)
        [] f = "min" -> ok(TRUE, IF x <= y THEN x ELSE y)
        [] f = "max" -> ok(TRUE, IF x >= y THEN x ELSE y)
@@ -349,8 +349,8 @@ LibVal(f, a) ==
        [] f = "set_bit" -> ok(pos, Or32(x, Shl32(1, y)))
        [] f = "clear_bit" -> ok(pos, And32(x, Xor32(-1, Shl32(1, y))))
        [] f = "toggle_bit" -> ok(pos, Xor32(x, Shl32(1, y)))
-       [] f = "div_floor" -> ok(y # 0 /\ InR(x) /\ InR(y), x \div y)              \* TLA+ \div is floor division
-       [] f = "mod_positive" -> ok(y # 0 /\ InR(x) /\ InR(y), x % absx(y))        \* in 0 .. |y| - 1
+       [] f = "div_floor" -> ok(y # 0 /\ LibInR(x) /\ LibInR(y), x \div y)              \* TLA+ \div is floor division
+       [] f = "mod_positive" -> ok(y # 0 /\ LibInR(x) /\ LibInR(y), x % absx(y))        \* in 0 .. |y| - 1
 
 RECURSIVE Exec(_, _, _, _), ExecS(_, _, _), ExecLoop(_, _, _, _), ExecCall(_, _)
 \* a call: body executed in a scope that holds only the functions and the parameters; effects on the world persist,
